@@ -220,6 +220,7 @@ func effStr(st *State) string {
 }
 
 func checkC01(p *Prog, r *Report) {
+	requireRecognisedDispatch(p)
 	r.NotCov = append(r.NotCov,
 		"goroutine scheduling, TCP delivery and backend behaviour (whether an attempt is answered or dropped)",
 		"a client that stays connected but stops reading (the recorded C17 finding): its replies are queued, not delivered",
@@ -230,6 +231,7 @@ func checkC01(p *Prog, r *Report) {
 	c01LockOrder(p, r)
 	sendResult(p, r, "C01.send-result", requestRoles(p))
 	c01ReplyWrite(p, r)
+	resultThreading(p, r, "C01.result-threading", "proxy", "proxycore")
 }
 
 // ---------------------------------------------------------------------------
@@ -716,7 +718,7 @@ func c01Closing(p *Prog, r *Report, cc *types.Named) {
 	}
 	// (c) pendingRequests.closing notifies every ranged entry and keeps iterating
 	{
-		fn := getPendingRoles(p).closing
+		fn := getPendingRoles(p).rangeFn
 		var probs []string
 		ranged := 0
 		eachCall(fn, func(c ssa.CallInstruction) {
@@ -753,6 +755,10 @@ func c01Closing(p *Prog, r *Report, cc *types.Named) {
 			// is lost to a sender taking its request back, that sender reports the failure and the
 			// entry must not be notified here as well
 			claim := getPendingRoles(p).loadAndDelete
+			// what is done with an entry may be a callback handed to the iterating helper
+			s.Inline = func(f *ssa.Function) bool {
+				return f.Parent() != nil && recvNamed(rootFn(f)) == getPendingRoles(p).typ
+			}
 			s.Model = func(sm *Sim, st *State, call ssa.CallInstruction, callee *ssa.Function) []*State {
 				if callee == nil || callee != claim {
 					return nil
